@@ -6,6 +6,7 @@ import (
 	"sync/atomic"
 	"time"
 
+	"github.com/formancehq/ledger/internal/verifhook"
 	"github.com/formancehq/stack/libs/go-libs/collectionutils"
 	"github.com/formancehq/stack/libs/go-libs/logging"
 	"github.com/pkg/errors"
@@ -145,6 +146,7 @@ func (defaultLocker *DefaultLocker) Lock(ctx context.Context, accounts Accounts)
 	defaultLocker.intents.Append(intent)
 	defaultLocker.mu.Unlock()
 
+	verifhook.Block(ctx, "lock.wait")
 	select {
 	case <-ctx.Done():
 		// The intent list is only ever walked under defaultLocker.mu (see recheck), and the lock may have been
@@ -158,8 +160,10 @@ func (defaultLocker *DefaultLocker) Lock(ctx context.Context, accounts Accounts)
 			defaultLocker.intents.RemoveValue(intent)
 		}
 		defaultLocker.mu.Unlock()
+		verifhook.Yield(ctx, "lock.cancelled")
 		return nil, errors.Wrapf(ctx.Err(), "locking accounts: %s as read, and %s as write", accounts.Read, accounts.Write)
 	case <-intent.acquired:
+		verifhook.Yield(ctx, "lock.granted")
 		return releaseIntent, nil
 	}
 }
